@@ -11,6 +11,7 @@ from spec import yamlspec
 
 from . import common as K
 
+TECHNIQUE = "ground contract obligations decided by evaluation (finite, exhaustive); generator re-run as translation validation in the thorough tier"
 LEVEL = "proof"
 EXHAUSTIVE = True
 ASSUMPTIONS = [
